@@ -793,7 +793,69 @@ def _native_shared(tier, seed):
                      "element-type variable with a variadic result segment (<= 2 types): verify() vs existence of a consistent binding, exhaustive"}
 
 
-NATIVE = [("verify-vs-split", _native_verify), ("build-then-verify", _native_build), ("shared-variables", _native_shared)]
+_region_cache: dict = {}
+
+
+def _region_cls(kind, single):
+    key = (kind, single)
+    if key not in _region_cache:
+        from xdsl.irdl import IRDLOperation, irdl_op_definition, opt_region_def, region_def, var_region_def
+
+        mk = {SINGLE: region_def, OPTIONAL: opt_region_def, VARIADIC: var_region_def}[kind]
+        ns = {"name": f"test.c10_rg_{kind}_{int(single)}", "body": mk("single_block") if single else mk()}
+        try:
+            _region_cache[key] = irdl_op_definition(type(f"C10RG_{kind}_{int(single)}", (IRDLOperation,), ns))
+        except Exception:
+            _region_cache[key] = None
+    return _region_cache[key]
+
+
+@rechecked
+def N_regions(kind, single, block_counts):
+    """verify() of an op with one region definition (single / optional / variadic; plain or single-block) and regions of the given block counts."""
+    from xdsl.ir import Block, Region
+    from xdsl.utils.exceptions import VerifyException
+
+    cls = _region_cls(kind, single)
+    if cls is None:
+        return None
+    from xdsl.dialects import test
+
+    regions = [Region([Block([test.TestTermOp.create()]) for _ in range(n)]) for n in block_counts]  # (terminated blocks: the generic structure check is not the subject)
+    try:
+        op = cls.create(regions=regions)
+    except Exception:
+        return None
+    n = len(block_counts)
+    count_ok = n == 1 if kind == SINGLE else n <= 1 if kind == OPTIONAL else True
+    exp = count_ok and (not single or all(c == 1 for c in block_counts))
+    try:
+        op.verify()
+        got = True
+    except VerifyException:
+        got = False
+    except Exception as e:  # noqa: BLE001
+        return {"region definition": kind, "single_block": single, "block counts": block_counts, "verify raised": f"{type(e).__name__}: {str(e)[:120]}"}
+    if got != exp:
+        return {"region definition": kind, "single_block": single, "block counts": list(block_counts), "verify accepted": got, "the definition is satisfied": exp}
+    return None
+
+
+def _native_regions(tier, seed):
+    cases = 0
+    for kind in (SINGLE, OPTIONAL, VARIADIC):
+        for single in (False, True):
+            for n in range(0, 4):
+                for counts in itertools.product((0, 1, 2), repeat=n):
+                    cases += 1
+                    f = N_regions(kind, single, list(counts))
+                    if f:
+                        return {"cases": cases, "failures": [dict(f, key="C10/regions")], "exhaustive": True, "bound": ""}
+    return {"cases": cases, "failures": [], "exhaustive": True,
+            "bound": "one region definition (single / optional / variadic; plain or single_block) with 0-3 regions of 0 / 1 / 2 blocks each: verify() vs the declared shape, exhaustive"}
+
+
+NATIVE = [("verify-vs-split", _native_verify), ("build-then-verify", _native_build), ("shared-variables", _native_shared), ("regions", _native_regions)]
 SCANS = [("def-class-hierarchy", check_class_hierarchy)]
 
 
